@@ -697,13 +697,13 @@ fn builder(rep: &mut Report, model: &mut Model, ctx: &Ctx, rng: &mut Rng) {
         // oracle (C07): no builder call touches the secrets drawn at construction
         if *c.encryption_key() != key0 || *c.encryption_nonce() != nonce0 {
             rep.violation("oracle", "C07/builder-secrets", json!({"check":"builder-secrets"}), "a builder call changed the symmetric key or the nonce drawn at construction", case.clone());
-            return;
+            if rep.full() { return; } continue;
         }
         let li = (c.is_layers_enabled(Layers::ENCRYPT) as u64) | ((c.is_layers_enabled(Layers::COMPRESS) as u64) << 1);
         let refused_model: Vec<bool> = m["refused"].as_array().map(|a| a.iter().map(|x| x == true).collect()).unwrap_or_default();
         if m["layers"].as_u64() != Some(li) || refused_model != refused_impl {
             rep.violation("corr", "corr:C07/builder", json!({}), &format!("layer set / refusals after the builder calls: implementation {li} {:?}, model {} {:?}", refused_impl, m["layers"], refused_model), case.clone());
-            return;
+            if rep.full() { return; } continue;
         }
         // the archive built from it: as many wrapped keys as recipients listed, every one of them opens it
         let usable = m["usable"] == true;
@@ -711,32 +711,32 @@ fn builder(rep: &mut Report, model: &mut Model, ctx: &Ctx, rng: &mut Rng) {
         let data = sink.data.clone();
         match ArchiveWriter::from_config(sink, c) {
             Ok(mut w) => {
-                if !usable { rep.violation("corr", "corr:C07/builder", json!({}), "the writer accepts a configuration the model calls unusable", case.clone()); return; }
+                if !usable { rep.violation("corr", "corr:C07/builder", json!({}), "the writer accepts a configuration the model calls unusable", case.clone()); if rep.full() { return; } continue; }
                 let content = rng.bytes(40, 2);
-                if w.add_file("f", content.len() as u64, &content[..]).is_err() || w.finalize().is_err() { rep.violation("oracle", "C07/build", json!({"check":"builder-archive"}), "writing with a built configuration fails", case.clone()); return; }
+                if w.add_file("f", content.len() as u64, &content[..]).is_err() || w.finalize().is_err() { rep.violation("oracle", "C07/build", json!({"check":"builder-archive"}), "writing with a built configuration fails", case.clone()); if rep.full() { return; } continue; }
                 drop(w);
                 let bytes = data.borrow().clone();
                 if li & 1 != 0 {
-                    let h = match parse_header(&bytes) { Ok(h) => h, Err(e) => { rep.violation("oracle", "C07/build", json!({"check":"header","class":e}), "header does not parse", case.clone()); return; } };
+                    let h = match parse_header(&bytes) { Ok(h) => h, Err(e) => { rep.violation("oracle", "C07/build", json!({"check":"header","class":e}), "header does not parse", case.clone()); if rep.full() { return; } continue; } };
                     if h.wrapped.len() != secrets.len() {
                         rep.violation("oracle", "C07/recipient", json!({"check":"wrapped-count","builder":true}), &format!("{} wrapped keys for {} recipients passed to add_public_keys", h.wrapped.len(), secrets.len()), case.clone());
-                        return;
+                        if rep.full() { return; } continue;
                     }
                     for (i, sk) in secrets.iter().enumerate() {
                         if open_with(&bytes, &[*sk], "f").ok().as_ref() != Some(&content) {
                             rep.violation("oracle", "C07/recipient", json!({"check":"recipient-opens","builder":true}), &format!("recipient {i} of {} (registered through the builder calls of this case) cannot open the archive", secrets.len()), case.clone());
-                            return;
+                            if rep.full() { return; } continue;
                         }
                     }
                     if rec_key(&bytes, &secrets) != Some(key0) {
                         rep.violation("oracle", "C07/builder-secrets", json!({"check":"archive-key"}), "the archive is not encrypted with the key drawn at construction", case.clone());
-                        return;
+                        if rep.full() { return; } continue;
                     }
                 }
                 rep.branch("config.run:usable");
             }
             Err(_) => {
-                if usable { rep.violation("corr", "corr:C07/builder", json!({}), "the writer refuses a configuration the model calls usable", case.clone()); return; }
+                if usable { rep.violation("corr", "corr:C07/builder", json!({}), "the writer refuses a configuration the model calls usable", case.clone()); if rep.full() { return; } continue; }
                 rep.branch("config.run:unusable");
             }
         }
